@@ -1,4 +1,5 @@
 """Hypothesis strategies for GDL-lite programs (font specs) -- the C06 regime and the "wild" regime."""
+import os
 from hypothesis import strategies as st
 import fontsynth as fs
 
@@ -221,6 +222,11 @@ def c06_spec(draw, max_glyphs=9, max_passes=3):
     # class-map layout: classes[0:nlinear] are stored as linear glyph lists, the rest as sorted (glyph, index) lookup tables
     # searched by bisection; both encodings mean the same (no class above repeats a glyph), so the model does not care
     spec['nlinear'] = draw(st.sampled_from([len(classes), len(classes), 0, draw(st.integers(0, len(classes)))]))
+    # 1 font in 4 declares its first passes (often all of them) *line-break* passes (Silf iSubst > 0): the engine runs those exactly like
+    # substitution passes, so neither the reference model nor any invariant changes (seed S7-C05 skipped associateChars for fonts whose
+    # passes in front of the positioning stage are all line-break passes)
+    if nsub and draw(st.integers(0, 3)) == 0 and not os.environ.get('VERIF_NO_LINEBREAK_PASSES'):      # (the switch exists for sensitivity experiments only)
+        spec['ilb'] = draw(st.sampled_from([nsub, nsub, draw(st.integers(1, nsub))]))
     return spec
 
 
